@@ -51,12 +51,12 @@ func anchorMissing(id, kind, fn string) []Result {
 
 // DOM: every site of Sink in Fn (closures included) is guarded by every gate in Gates.
 type DOM struct {
-	ID    string
-	Fn    string
-	Sink  string // regexp over RenderInstr
-	Gates []Gate
-	Min   int // minimum number of sink sites confirmed by hand (default 1)
-	Max   int // 0 = unbounded
+	ID      string
+	Fn      string
+	Sink    string // regexp over RenderInstr
+	Gates   []Gate
+	Min     int  // minimum number of sink sites confirmed by hand (default 1)
+	Max     int  // 0 = unbounded
 	Shallow bool // do not look inside closures
 	// Stable lists (audited) canonical expressions that are pure over SSA registers; a path may not take
 	// both polarities of such an expression (removes infeasible paths of the `if ok {a}; …; if !ok {return}` shape).
